@@ -162,7 +162,22 @@ class CounterDict(dict):
     def vc_most_common(self, eng, args, kwargs):
         items = list(self.items())
         if any(is_sym(v) for _, v in items):
-            raise Unsupported('Counter.most_common with symbolic counts')
+            # sorted(items, key=count, reverse=True): stable, ties keep insertion order.  Insertion sort deciding each
+            # comparison on the path (at most n! paths; used for a handful of keys)
+            if len(items) > 4:
+                raise Unsupported('Counter.most_common with more than 4 symbolic counts')
+            out = []
+            for kv in items:
+                pos = len(out)
+                while pos > 0:
+                    c = eng.order(ast.Gt(), kv[1], out[pos - 1][1], None)
+                    if c is True or (c is not False and eng.branch(c)):
+                        pos -= 1
+                    else:
+                        break
+                out.insert(pos, kv)
+            n = args[0] if args else None
+            return out[:n] if n is not None else out
         items.sort(key=lambda kv: -kv[1])
         n = args[0] if args else None
         return items[:n] if n is not None else items
